@@ -52,7 +52,14 @@ def encLine (toks : List String) : String :=
     match xmlPos.toNat?, strOfHex tmpl, n.toNat? with
     | some xp, some t, some n =>
       match parseSections n rest [] with
-      | some (secs, _) => hexTok (encodeFile secs t xp)
+      | some (secs, _) =>
+        -- a gap of the marker size is resized so that the logical length becomes a multiple of 1020
+        let isFit := fun (s : SectionSpec) => match s with | .gap 999999937 => true | _ => false
+        let secs0 := secs.map (fun s => if isFit s then SectionSpec.gap 0 else s)
+        let l := logicalLength secs0 t xp
+        let n := (1020 - l % 1020) % 1020
+        let secs := secs.map (fun s => if isFit s then SectionSpec.gap n else s)
+        hexTok (encodeFile secs t xp)
       | none => "BADCASE"
     | _, _, _ => "BADCASE"
   | _ => "BADCASE"
